@@ -150,6 +150,12 @@ def second_order_failure(stats, m, var, sm, s, penv, w):
         return None
     # the reference second derivative by definition: central difference of the first-order reference derivative
     cd2 = _cd_of_first(m, var, penv, w)
+    if cd2 is not None and fold_conditioning(m) > 1e-12:
+        # a variable-free sub-tree of the original is ill-conditioned (e.g. cos of 6.8e8): the constant the library
+        # folds it to legitimately differs from the true value by far more than an ulp ("rounding proportional to
+        # conditioning"), so the exact second derivative is not what the returned expression can be held to
+        stats.count("second-order-skip:ill-conditioned-fold")
+        cd2 = None
     if cd2 is not None:
         tol = 1e-9 * (abs(o2.D) + o2.a + abs(cd2) + 1)
         if abs(cd2 - o2.D) > tol:
@@ -169,6 +175,27 @@ def second_order_failure(stats, m, var, sm, s, penv, w):
         return (f"Partial(returned expression, {w}).at gives {got.value!r}, reference derivative of the returned "
                 f"expression is {o2.D} (error/bound {ratio:.3g})")
     return None
+
+
+def fold_conditioning(m):
+    """Sum over maximal variable-free non-leaf sub-trees T of (rounding bound of evaluating T) / |T|."""
+    total = 0.0
+    seen = set()
+
+    def go(x):
+        nonlocal total
+        if id(x) in seen or x[0] in M.LEAVES:
+            return
+        seen.add(id(x))
+        if not M.variables(x):
+            r, _ = RE.evaluate(x, {}, lo=0.0, hi=float("inf"))
+            if r.st == RE.DEFINED:
+                total += r.eps / max(float(abs(r.v)), 1e-300)
+            return
+        for c in M.children(x):
+            go(c)
+    go(m)
+    return total
 
 
 def _second_again(m, var, route, as_object, penv, w):
